@@ -43,6 +43,8 @@ EventClauses(e) ==
   \cup (IF e.a = "ApplyInv" /\ e.fired # invs[e.n].cap.cb THEN Flag("callback_used") ELSE {})
   \cup (IF e.a = "ApplyInv" /\ e.fired # 0 /\ e.solver # invs[e.n].cap.solver
            THEN Flag("solver_used") ELSE {})
+  \* a solve that cannot converge raises exactly when the CAPTURED configuration says solver_throw
+  \cup (IF e.a = "ApplyInv" /\ e.raised # invs[e.n].cap.throw THEN Flag("throw_used") ELSE {})
 
 TraceInit == /\ Init /\ tid \in 1..Len(Traces) /\ l = 1 /\ bad = {}
 
